@@ -281,6 +281,17 @@ impl<'a, W: WriteExt, F: Formatter> MapKeySerializer<'a, W, F> {
     pub open spec fn fut_ser(&self) -> Serializer<W, F> { mut_ref_future(self.ser) }
     pub open spec fn cur_calls(&self) -> Seq<FCall> { self.ser.formatter.calls() }
     pub open spec fn cur_failed(&self) -> bool { self.ser.formatter.failed() }
+//@extract file=src/serde/ser.rs impl="ser::Serializer for MapKeySerializer<'a, W, F>" fn=serialize_newtype_struct
+//@subst /T: \?Sized \+ Serialize,/ => T: Serialize,
+//@subst? /value\.serialize\(self\)/ => value.serialize_as_key(&mut *self.ser)
+//@subst? /value\.serialize\(self\.ser\)/ => value.serialize(&mut *self.ser)
+//@sig
+        requires !self.cur_failed(),
+        // a newtype in key position is transparent and STAYS in key position: the inner value is serialized as a key
+        // (quoted, escaped, scalar only), not as a value
+        ensures res.is_ok() ==> self.fut_ser().formatter.calls() == self.cur_calls() + value.key_events(),
+            self.fut_ser().formatter.failed() ==> res.is_err(),
+//@end
 //@extract file=src/serde/ser.rs impl="ser::Serializer for MapKeySerializer<'a, W, F>" fn=serialize_bool
 //@sig
         requires !self.cur_failed(),
